@@ -198,11 +198,24 @@ class Judge:
         sid = q[0]
         d = ref.decide(m, pre[0], q, mask)
         ok = True
-        def bad(sig: str, msg: str) -> None:
+        def bad(sig: str, msg: str, with_off: bool = True) -> None:
             nonlocal ok
             ok = False
-            off = "-" if mask == ref.ALL else (label(sig) if label else _off(mask))
-            res.violate(sig + "|off=" + off, msg + " :: " + self.where(q, pre, mask), self.rp(q, mask, **(rp_extra or {})))
+            if with_off:
+                sig += "|off=" + ("-" if mask == ref.ALL else (label(sig) if label else _off(mask)))
+            res.violate(sig, msg + " :: " + self.where(q, pre, mask), self.rp(q, mask, **(rp_extra or {})))
+
+        if sid in ref.SUBFUNC and len(q) < 2 and not mask & ref.MSF and mask & ref.SFNS and h is not None:
+            if h[0] == 0x7F and len(h) == 3 and h[2] in (ref.NRC_SFNS, ref.NRC_SFNSIAS) and (not mask & ref.SNS or sid in m.services.get(pre[0], {})):
+                # rule 3 fired on a request that has no sub-function byte (rule 2 being disabled)
+                bad(
+                    f"C13|sub_function_not_supported|applied-without-sub-function-byte|got={_cls(h)}",
+                    f"request without sub-function byte answered {h.hex()} by the unknown-sub-function rule",
+                )
+                want_post = ref.after(pre, q, h)
+                if post != want_post:
+                    bad(f"C13|state|after-rule3-without-sub-function|sid={_sidcat(sid)}", f"state {post} expected {want_post}")
+                return ok
 
         # shape of any answer
         if h is not None:
@@ -242,11 +255,12 @@ class Judge:
                     bad(f"C13|none|sid={_sidcat(sid)}|no-answer", "no answer at all although default_response_if_none is on")
             elif wf:
                 if h[0] == 0x7F and len(h) == 3 and h[2] == ref.NRC_IMLOIF and not record_dependent(q):
-                    self.parse_disagree.add(q)
                     bad(
                         f"C13|incorrect_format|wellformed-request-answered-13|sid={_sidcat(sid)}|sub={q[1] & 0x7F if sid in (ref.DDDI, ref.RDTC, ref.RC) and len(q) > 1 else '*'}|suppress-bit={int(ref.suppressible(q))}",
-                        f"well formed request (ISO 14229-1 layout, service and sub-function offered) answered incorrectMessageLengthOrInvalidFormat {h.hex()}",
+                        f"well formed request (ISO 14229-1 layout) answered incorrectMessageLengthOrInvalidFormat {h.hex()} although no default rule applies",
+                        with_off=False,
                     )
+                    self.parse_disagree.add(q)
                 if sid == ref.SA:
                     e = ref.security_access(pre[2], q)
                     assert e is not None
@@ -270,11 +284,12 @@ class Judge:
                     n13 = bytes([0x7F, sid, ref.NRC_IMLOIF])
                     if wf and prev_ifmt != ifmt and ((prev_ifmt and prev == n13) or (ifmt and norm == n13)):
                         # 0x13 exactly when the format rule is on: the server took q for unparsable
-                        self.parse_disagree.add(q)
                         bad(
                             f"C13|incorrect_format|wellformed-request-answered-13|sid={_sidcat(sid)}|sub={q[1] & 0x7F if sid in (ref.DDDI, ref.RDTC, ref.RC) and len(q) > 1 else '*'}|suppress-bit={int(ref.suppressible(q))}",
                             f"well formed request answered incorrectMessageLengthOrInvalidFormat only while default_response_if_incorrect_format is on ({prev.hex()} vs {norm.hex()}): the server could not parse it",
+                            with_off=False,
                         )
+                        self.parse_disagree.add(q)
                     else:
                         bad(f"C13|differential|handler-answer-depends-on-switches|sid={_sidcat(sid)}", f"handler stage answer {norm.hex()} differs from {prev.hex()} seen under another switch set")
             else:
@@ -569,8 +584,8 @@ def replay(doc: dict[str, Any]) -> Result:
     mask = doc.get("mask", ref.ALL)
     if mask != ref.ALL:
         # base line for the differential clause
-        for base in (ref.ALL & ~ref.SUPP, ref.ALL):
-            ex.apply(q, base, gap=gap, entropy=doc.get("entropy", 0), pre=pre)
+        for base in (ref.ALL & ~ref.SUPP, ref.ALL, mask ^ ref.IFMT):
+            ex.apply(q, base, gap=gap, entropy=doc.get("entropy", 0), pre=pre, res=Result(), explain=False)
     r = ex.apply(q, mask, gap=gap, entropy=doc.get("entropy", 0), pre=pre)
     print(f"    request {q.hex()} mask={mask:09b} gap={gap}: reply {None if r is None else (r[1].hex() if r[1] else None)}; reference {ref.decide(ex.m, (pre or ex.pre)[0], q, mask)}")
     return res
